@@ -49,7 +49,9 @@ pub struct Val {
 }
 
 const N_REGULAR: usize = 19; // values 0..=18 are swept with arities 1..3; the rest only appear in mixed tuples
-const CORE: [usize; 6] = [0, 1, 2, 3, 7, 13]; // quick tier: always present
+// quick tier: always present — incl. the domain-edge values 0, -0, empty, 1, -1, huge, so that a function that
+// starts producing +-inf/NaN element-wise (e.g. LN over {0,..}) is seen in the quick sweep
+const CORE: [usize; 10] = [0, 1, 2, 3, 4, 5, 7, 13, 20, 22];
 
 fn values() -> Vec<Val> {
     fn v(name: &'static str, lit: &'static str, arr: Option<&'static str>, cell: CellIn) -> Val {
@@ -117,7 +119,7 @@ const MIXED: [&[usize]; 20] = [
 fn tuples(fi: usize, thorough: bool, seed: u64) -> Vec<Vec<usize>> {
     let mut regular: Vec<usize> = if thorough {
         // all of them, plus the benign 2 and 1 (more functions reach a non-error result)
-        (0..N_REGULAR).chain([19, 22, 26, 27, 28]).collect()
+        (0..N_REGULAR).chain([19, 20, 22, 26, 27, 28]).collect()
     } else {
         // the core values for every function, plus three of the remaining ones chosen from the seed
         let mut v: Vec<usize> = CORE.to_vec();
@@ -168,6 +170,8 @@ const ANCHOR: (i32, i32) = (10, 8); // H10; the inputs live in A1:F6
 
 pub struct Item {
     pub tuple: usize,
+    /// the names of the argument values, e.g. `0,0` or `1E308,2`
+    pub tuple_names: String,
     pub shape: Shape,
     pub form: Form,
     pub formula: String,
@@ -185,6 +189,7 @@ fn items_for(fname: &str, fi: usize, thorough: bool, seed: u64, vals: &[Val]) ->
     let forms: &[Form] = if thorough { &[Form::Single, Form::Cse, Form::DynMul, Form::DynPow] } else { &[Form::Single, Form::Cse, Form::DynMul] };
     let mut out = vec![];
     for (ti, t) in tuples(fi, thorough, seed).iter().enumerate() {
+        let tuple_names: String = t.iter().map(|&vi| vals[vi].name).collect::<Vec<_>>().join(",");
         for &shape in shapes {
             let mut cells: Vec<(i32, i32, CellIn)> = vec![];
             let mut args: Vec<String> = vec![];
@@ -225,7 +230,7 @@ fn items_for(fname: &str, fi: usize, thorough: bool, seed: u64, vals: &[Val]) ->
                     Form::DynMul => format!("={call}*{{1,1}}"),
                     Form::DynPow => format!("={call}^{{1,2}}"),
                 };
-                out.push(Item { tuple: ti, shape, form, formula, cells: cells.clone() });
+                out.push(Item { tuple: ti, tuple_names: tuple_names.clone(), shape, form, formula, cells: cells.clone() });
             }
         }
     }
@@ -353,8 +358,12 @@ fn result_is_nonfinite_array(cells: &[(i32, i32, CellIn)], formula: &str) -> boo
 }
 
 /// the classes of one evaluated formula, unknown classes first, each with its hits
-fn classify(hits: &[Hit], cells: &[(i32, i32, CellIn)], formula: &str) -> Vec<(&'static str, Vec<Hit>)> {
-    let mut out: Vec<(&'static str, Vec<Hit>)> = vec![];
+/// `src` names what produced the value: the classes of the unguarded array sinks are emitted PER SOURCE
+/// (`array_branch_nonfinite:<src>`, `coerce_1x1_nonfinite:<src>`); lib/c08.py maps a source listed in
+/// known/C08_array_nonfinite_baseline.txt (the sources that reach the sink on the unchanged tree) to the
+/// known class and leaves a new source unmapped, i.e. a VIOLATION with the formula as replay.
+fn classify(hits: &[Hit], cells: &[(i32, i32, CellIn)], formula: &str, src: &str) -> Vec<(String, Vec<Hit>)> {
+    let mut out: Vec<(String, Vec<Hit>)> = vec![];
     for h in hits {
         let mut class = h.class();
         if class == "scalar_branch_nonfinite" && result_is_nonfinite_array(cells, formula) {
@@ -364,10 +373,18 @@ fn classify(hits: &[Hit], cells: &[(i32, i32, CellIn)], formula: &str) -> Vec<(&
         }
         match out.iter_mut().find(|(c, _)| *c == class) {
             Some((_, v)) => v.push(h.clone()),
-            None => out.push((class, vec![h.clone()])),
+            None => out.push((class.to_string(), vec![h.clone()])),
         }
     }
-    out.sort_by_key(|(c, _)| match *c { "scalar_branch_nonfinite" => 0, "number_cell_nonfinite" => 1, "coerce_1x1_nonfinite" => 2, _ => 3 });
+    // per source AND per kind of value: `array_branch_nonfinite:LN("inf")->inf`
+    for (class, hs) in out.iter_mut() {
+        if class == "array_branch_nonfinite" || class == "coerce_1x1_nonfinite" {
+            let mut kinds: Vec<&str> = hs.iter().map(|h| if h.value.is_nan() { "nan" } else if h.value > 0.0 { "inf" } else { "-inf" }).collect();
+            kinds.sort(); kinds.dedup();
+            *class = format!("{class}:{src}->{}", kinds.join("/"));
+        }
+    }
+    out.sort_by_key(|(c, _)| if c == "scalar_branch_nonfinite" { 0 } else if c == "number_cell_nonfinite" { 1 } else if c.starts_with("coerce_1x1_nonfinite") { 2 } else { 3 });
     out
 }
 
@@ -504,14 +521,20 @@ fn child_main(a: &Args) {
                 acc.nontrivial_fns.insert(fname.clone());
             }
             if !out.hits.is_empty() {
-                for (class, hs) in classify(&out.hits, &it.cells, &it.formula) {
-                    *acc.per_class.entry(class.to_string()).or_insert(0) += 1;
-                    *acc.by_fn.entry(class.to_string()).or_default().entry(fname.clone()).or_insert(0) += 1;
-                    let e = reported.entry(class.to_string()).or_insert((0, usize::MAX));
-                    if e.0 < 6 || it.formula.len() < e.1 {
+                // the source: the function, qualified by the wrapper of the dynamic forms (there the
+                // operator produced the array, the function the operand)
+                let call = format!("{fname}({})", it.tuple_names);
+                let src = match it.form { Form::Single | Form::Cse => call, Form::DynMul => format!("{call}~mul"), Form::DynPow => format!("{call}~pow") };
+                for (class, hs) in classify(&out.hits, &it.cells, &it.formula, &src) {
+                    let base = class.split(':').next().unwrap_or("").to_string();
+                    *acc.per_class.entry(class.clone()).or_insert(0) += 1;
+                    *acc.by_fn.entry(base).or_default().entry(fname.clone()).or_insert(0) += 1;
+                    let cap = if class.contains(':') { 2 } else { 6 };
+                    let e = reported.entry(class.clone()).or_insert((0, usize::MAX));
+                    if e.0 < cap || it.formula.len() < e.1 {
                         e.0 += 1;
                         e.1 = e.1.min(it.formula.len());
-                        acc.fails.push(fail_record(class, "function_sweep", &it.formula, it.form.name(), it.shape.name(), fname, &it.cells, &hs));
+                        acc.fails.push(fail_record(&class, "function_sweep", &it.formula, it.form.name(), it.shape.name(), fname, &it.cells, &hs));
                     }
                 }
             }
@@ -783,8 +806,8 @@ fn operators_section(p: &mut Parent) {
             if out.panicked { *p.panics.entry("(operators)".to_string()).or_insert(0) += 1; }
             if nontrivial(out.anchor) { p.nontrivial += 1; }
             if !out.hits.is_empty() {
-                for (class, hs) in classify(&out.hits, &cells, f) {
-                    p.fails.push(fail_record(class, "operators", f, form, "operator", "", &cells, &hs));
+                for (class, hs) in classify(&out.hits, &cells, f, &format!("expr:{f}")) {
+                    p.fails.push(fail_record(&class, "operators", f, form, "operator", "", &cells, &hs));
                 }
             }
         }
@@ -814,14 +837,14 @@ fn typed_section(p: &mut Parent, thorough: bool, seed: u64) -> Vec<Value> {
         let short: String = if t.len() > 60 { format!("{}…({} chars)", &t[..40], t.len()) } else { t.clone() };
         let h0 = &hits[0];
         // class by a predicate on the typed text and on where the number sits
-        let class = if h0.kind != "NumberCell" {
-            classify(&hits, &[], &t)[0].0 // typed formulas: same classes as everywhere else
+        let class: String = if h0.kind != "NumberCell" {
+            classify(&hits, &[], &t, &format!("expr:{short}"))[0].0.clone() // typed formulas: same classes as everywhere else
         } else if is_exponent_numeral(&t) {
-            "typed_exponent_overflow"
+            "typed_exponent_overflow".to_string()
         } else if is_digit_numeral(&t) {
-            "typed_digits_overflow"
+            "typed_digits_overflow".to_string()
         } else {
-            "typed_nonfinite_other"
+            "typed_nonfinite_other".to_string()
         };
         if stored_extremes.len() < 12 { stored_extremes.push(json!({"typed": short, "stored": format!("{}", h0.value), "formatted": shown})); }
         p.fails.push(json!({"class": class,
